@@ -38,4 +38,12 @@ CLAIMS = {
         "note": "Not decided: line atomicity under real thread/process contention (POSIX O_APPEND, A3), independence of the flush order from the staging limit over all arrival "
                 "orders, and generation bookkeeping over rotation histories / interruption points - schedule- and history-quantified.",
     },
+    "C07": {
+        "technique": "static analysis: separator-injectivity rule over join/split codec sites, writer/reader section-table agreement, DELTA->FULL typestate of payload variables over the readers' CFGs, guard dominance of the delta-header write",
+        "text": "Decides the structural necessary conditions of exact reconstruction: path components are escaped before joining and decoded escape-aware (or paths are not strings), "
+                "the empty key stays addressable; sections written = sections consumed and the three key-set loops feed the right sections; no reader path uses a payload read "
+                "from a delta-mode file as a body before apply_delta; the writer emits a delta header only where the baseline was found and read, one file per call.",
+        "note": "Not decided: the round-trip law apply(base, diff(base,cur)) == cur over all JSON pairs (incl. 1/True/1.0 equality) - a value-level law that needs exhaustive or random "
+                "evaluation, a different technique; codec-level properties of zstd.",
+    },
 }
